@@ -103,6 +103,7 @@ type Path struct {
 	fresh      int
 	forked     int
 	opaqueHit  bool
+	known      map[uint32]bool
 }
 
 type Stats struct {
@@ -224,6 +225,15 @@ func (p *Path) addPC(t *Term) {
 		return
 	}
 	p.pc = append(p.pc, t)
+	if p.known == nil {
+		p.known = map[uint32]bool{}
+	}
+	p.known[t.id] = true
+	if t.op == OpNot {
+		p.known[t.a[0].id] = false
+	} else {
+		p.known[p.f.Not(t).id] = false
+	}
 	p.w.solver.Assert(t)
 	p.refine(t)
 }
@@ -427,6 +437,9 @@ func (p *Path) Branch(c *Term) bool {
 		if v.opaque {
 			panic(unsupported("branch on opaque (un-modelled) string content %s", v.name))
 		}
+	}
+	if v, ok := p.known[c.id]; ok {
+		return v // already decided on this path (syntactically identical condition)
 	}
 	nc := p.f.Not(c)
 	if d, ok := p.nextPrefix(); ok {
